@@ -9,5 +9,8 @@ import (
 
 func main() {
 	engines.RegisterAll()
+	if len(os.Args) > 2 && os.Args[1] == "sched-child" {
+		os.Exit(engines.SchedChildMain(os.Args[2]))
+	}
 	os.Exit(core.Main(os.Args[1:]))
 }
